@@ -5,12 +5,12 @@ PID = "C03"
 
 
 def make_work(rng, tier):
-    n = 36 if tier == "quick" else 600
+    n = 48 if tier == "quick" else 600
     work = []
     for i in range(n):
         # row counts at / around batch sizes so that exact multiples and off-by-one occur
-        tables = sqlgen.make_db(rng, max_rows=rng.choice([7, 8, 16, 21, 64, 65]))
-        g = sqlgen.Gen(rng, tables, {"max_depth": 2, "ctes": False})
+        tables = sqlgen.make_db(rng, max_rows=rng.choice([7, 8, 16, 21, 64, 65]), edge_text=(i % 2 == 0))
+        g = sqlgen.Gen(rng, tables, {"max_depth": 2, "ctes": False, "join_bias": i % 3 == 0, "order_chance": 60})
         qs = [g.query() for _ in range(2)]
         runs = []
         for q in qs:
